@@ -1,10 +1,135 @@
-"""Native replay: executable contracts run against the real code (filled in later)."""
+"""Native replay: executable contracts compiled INTO a scratch copy of /repo/src and run on the real code.
+
+The scratch copy is made from /repo's working tree on every build (outside /repo and /verif).
+Appended to the copy (and to nothing else):
+  * lib.rs:            `#[path=".../exec_root.rs"] pub mod verif_exec;` + e2e module
+  * src/<x>/mod.rs...: `#[path=".../exec_<x>.rs"] pub(crate) mod verif_exec;` for private-item access
+  * src/bin/verif_replay.rs: the driver
+The cargo target dir is cached under /verif/.cache (ignored by git) so that later builds are incremental.
+"""
+import os
+import re
+import shutil
+import subprocess
+import tempfile
+import time
+
+from . import assemble
+
+VERIF = assemble.VERIF
+REPO = assemble.REPO
+CACHE = os.path.join(VERIF, ".cache")
+
+# (file in src, module declaration appended)
+CHILD_MODULES = [
+    ("lib.rs", '#[path = "%(R)s/exec_root.rs"] pub mod verif_exec;\n#[path = "%(R)s/exec_e2e.rs"] pub mod verif_exec_e2e;\n'),
+    ("bitfield/mod.rs", '#[path = "%(R)s/exec_bitfield.rs"] pub(crate) mod verif_exec;\n'),
+]
+
+_BUILD = {}
+
+
+def build(verbose=False):
+    """-> (binary path or None, log)"""
+    if "bin" in _BUILD:
+        return _BUILD["bin"], _BUILD["log"]
+    t0 = time.time()
+    os.makedirs(CACHE, exist_ok=True)
+    base = os.environ.get("TMPDIR", "/tmp")
+    wd = tempfile.mkdtemp(prefix="hcverif-native.", dir=base)
+    try:
+        shutil.copytree(os.path.join(REPO, "src"), os.path.join(wd, "src"))
+        shutil.copy(os.path.join(REPO, "Cargo.lock"), wd)
+        with open(os.path.join(REPO, "Cargo.toml")) as f:
+            toml = f.read()
+        # drop benches / dev-deps sections that reference files we do not copy
+        toml = re.sub(r"\[\[bench\]\][^\[]*", "", toml)
+        toml += '\n[[bin]]\nname = "verif_replay"\npath = "src/bin/verif_replay.rs"\n'
+        with open(os.path.join(wd, "Cargo.toml"), "w") as f:
+            f.write(toml)
+        # lint levels only: `#![forbid(missing_docs, ...)]` would reject the appended test modules
+        lp = os.path.join(wd, "src", "lib.rs")
+        with open(lp) as f:
+            ls = f.read()
+        with open(lp, "w") as f:
+            f.write(ls.replace("#![forbid(", "#![warn(").replace("#![cfg_attr(test, deny(warnings))]", ""))
+        rdir = os.path.join(VERIF, "replay")
+        for rel, decl in CHILD_MODULES:
+            p = os.path.join(wd, "src", rel)
+            with open(p, "a") as f:
+                f.write("\n" + decl % {"R": rdir})
+        os.makedirs(os.path.join(wd, "src", "bin"), exist_ok=True)
+        shutil.copy(os.path.join(rdir, "bin_verif_replay.rs"), os.path.join(wd, "src", "bin", "verif_replay.rs"))
+        env = dict(os.environ)
+        env["CARGO_TARGET_DIR"] = os.path.join(CACHE, "target")
+        env["CARGO_NET_OFFLINE"] = "true"
+        env.setdefault("RUSTFLAGS", "-Awarnings")
+        p = subprocess.run(["cargo", "build", "--offline", "--release", "--bin", "verif_replay"], cwd=wd, env=env,
+                           capture_output=True, text=True, timeout=1800)
+        log = (p.stdout + p.stderr)[-6000:]
+        binp = os.path.join(CACHE, "target", "release", "verif_replay")
+        if p.returncode != 0 or not os.path.exists(binp):
+            _BUILD["bin"], _BUILD["log"] = None, "native build failed (%.0fs):\n%s" % (time.time() - t0, log)
+        else:
+            # copy the binary so that a later build cannot change what we run
+            dst = os.path.join(CACHE, "verif_replay.%d" % os.getpid())
+            shutil.copy(binp, dst)
+            _BUILD["bin"], _BUILD["log"] = dst, "native build ok (%.0fs)" % (time.time() - t0)
+    finally:
+        shutil.rmtree(wd, ignore_errors=True)
+    return _BUILD["bin"], _BUILD["log"]
+
+
+def cleanup():
+    b = _BUILD.get("bin")
+    if b and os.path.exists(b):
+        os.unlink(b)
+    _BUILD.clear()
+
+
+def run_search(selectors, seed, budget, timeout=900):
+    """-> dict name -> ('pass'|'FAIL', detail) or {'error':..}"""
+    binp, log = build()
+    if not binp:
+        return {"error": log}
+    p = subprocess.run([binp, "search", str(seed), str(budget)] + selectors, capture_output=True, text=True, timeout=timeout)
+    res = {}
+    for ln in p.stdout.splitlines():
+        f = ln.split("\t")
+        if f[0] == "RESULT":
+            res[f[1]] = (f[2], f[3] if len(f) > 3 else "")
+    if p.returncode not in (0, 1):
+        res["error"] = "replay binary exit %d: %s" % (p.returncode, p.stderr[-500:])
+    return res
 
 
 def search(prop, unit, info, failed, seed):
-    return {"ran": False, "reason": "no executable contract registered for " + info.name}
+    """called for a function whose proof failed: run the executable contracts that cover it"""
+    sel = ["fn:" + info.name]
+    res = run_search(sel, seed, 300)
+    if "error" in res:
+        return {"ran": False, "reason": res["error"]}
+    if not res:
+        return {"ran": False, "reason": "no executable contract covers " + info.name}
+    out = {"ran": True, "contracts": {k: v[0] for k, v in res.items()}, "failing_input": None}
+    for name, (st, detail) in res.items():
+        if st == "FAIL":
+            out["failing_input"] = detail
+            out["contract"] = name
+            out["rerun_cmd"] = "verif_replay rerun %s '<failing_input>'" % name
+            break
+    return out
 
 
 def rerun(doc):
-    print("native rerun not available")
-    return 1
+    nat = doc["native"]
+    binp, log = build()
+    if not binp:
+        print(log)
+        return 2
+    p = subprocess.run([binp, "rerun", nat["contract"], nat["failing_input"]], capture_output=True, text=True, timeout=900)
+    print(p.stdout.strip())
+    print("replayed on the real code of /repo (scratch copy of the current working tree): %s" %
+          ("still failing" if p.returncode == 1 else "passes now"))
+    cleanup()
+    return 1 if p.returncode == 1 else 0
